@@ -356,7 +356,9 @@ package errbase
 //@   assigns heap state.entries
 //@   ensures len(self.entries) == old(len(self.entries))
 //@   ensures[C06] wfEntries(old(self.entries)) ==> wfEntries(self.entries)
+//@   ensures[C09] forall k int :: len(self.entries) - newEntries <= k && k < len(self.entries) ==> self.entries[k].elideShort
 //@   loop 1: invariant 0 <= i && len(self.entries) == old(len(self.entries))
+//@           invariant[C09] forall k int :: len(self.entries) - i <= k && k < len(self.entries) ==> self.entries[k].elideShort
 //@           invariant[C06] wfEntries(old(self.entries)) ==> wfEntries(self.entries)
 
 //@ method (*state).collectEntry
@@ -375,6 +377,7 @@ package errbase
 //@   requires[C09] forall k int :: 0 <= k && k < len(causes(err)) ==> causes(err)[k] != nil
 //@   ensures[C09] result == treeSize(err)
 //@   ensures[C09] self.entries[len(self.entries) - 1].err == err
+//@   ensures[C09] len(specialCases) == 0 && !typeis(err, SafeFormatter) && !typeis(err, Formatter) && !typeis(err, fmt.Formatter) && len(causes(err)) > 0 ==> (forall k int :: old(len(self.entries)) <= k && k < len(self.entries) - 1 ==> self.entries[k].elideShort)
 //@   requires[C06] wfEntries(self.entries)
 //@   ensures[C06] wfEntries(self.entries)
 //@   loop 1: invariant numChildren >= 0 && len(self.entries) == old(len(self.entries)) + numChildren
